@@ -3,17 +3,18 @@ PROP = {
     "coq_targets": ["Properties/C32.vo", "Extract/C32Extract.vo"],
     "properties_file": "Properties/C32.v",
     "theorems": ["C32_highest_seq_kept", "C32_kept_until_aged_out", "C32_highest_seq_history", "C32_flag_rules",
-                 "C32_flags_invariant", "C32_refresh_before_expiry", "C32_own_seq_dominates"],
+                 "C32_flags_invariant", "C32_refresh_before_expiry", "C32_own_seq_dominates", "C32_ids_are_full"],
     "allowed_axioms": [],
     "harness": "c32",
     "modelrun": {"name": "c32", "extracted": ["c32_model"], "driver": "ocaml/c32/c32_run.ml"},
     "tiers": {"quick": {"cases": 6000}, "thorough": {"cases": 120000}},
     "search_cases": 20000,
     "rule": "histories of 4-20 events on a server with three interfaces (8 mixes of: active with Up neighbor / active "
-            "without neighbor / passive): LSPs (6 ids incl. the own LSP and the own system's pseudonode LSP, sequence "
-            "numbers 1-4, rarely 0 / 2^32-2 / 2^32-1, lifetimes 1-6 or 1200), CSNPs with full or partial range and 0-4 "
-            "entries, PSNPs with 0-3 entries, aging ticks (1-3, or 1-1810 with the updater running after each), updater runs, "
-            "forced regenerations, LSP and PSNP sender runs; a case is non-trivial when it contains an SNP, a sender run or an "
+            "without neighbor / passive): LSPs (10 full ids <system, pseudonode, LSP number> incl. siblings differing only "
+            "in the LSP number or only in the pseudonode, the own LSP, another fragment and a pseudonode LSP of the own system; sequence "
+            "numbers 1-4, rarely 0 / 2^32-2 / 2^32-1, lifetimes 1-6 or 1200), CSNPs with full or partial range (boundaries drawn from the id pool, so they fall "
+            "between siblings) and 0-4 entries spread over 1-4 LSP entries TLVs, PSNPs with 0-3 entries, aging ticks (1-3, or 1-1810 with the updater running after each), updater runs, "
+            "forced regenerations, LSP, PSNP and CSNP sender runs; a case is non-trivial when it contains an SNP, a sender run or an "
             "LSP received into a non-empty database; distinct = distinct inputs",
     "trusted_base": [
         "extraction (ExtrOcamlBasic only) + ocaml/common/conv.ml + ocaml/c32/c32_run.ml",
